@@ -291,6 +291,10 @@ def specs(draw, rich=True, with_mutation=None, with_subscription=False, max_obje
                 if t[0] != "nn" and draw(st.integers(0, 3)) == 0:
                     g["type"] = g["type"] + "!"
                 g["desc"] = draw(_DESC)
+                base_named = named(parse_t(g["type"]))
+                if base_named in implementers and implementers[base_named] and draw(st.integers(0, 2)) == 0:
+                    # covariant result type: an object that implements the interface the declaring interface promises
+                    g["type"] = g["type"].replace(base_named, draw(st.sampled_from(sorted(implementers[base_named]))))
                 if defaults and g["args"] and draw(st.integers(0, 2)) == 0:
                     # implementations may declare other defaults / python names for the interface's arguments
                     for a in g["args"]:
